@@ -65,6 +65,8 @@ def _both_outputs(case):
         res.update(status=st, exc=exc, frame=frame)
         return res
     thr = case["cfg"]["thr"][0] / case["cfg"]["thr"][1]
+    for _ in range(case.get("repeat", 0)):      # every document a Shaper emits: also the one of a call it has answered before
+        runner.call_guarded(lambda: sh.shex_graph(string_output=True, acceptance_threshold=thr, output_format=C.SHEXC))
     st, t1, exc, frame = runner.call_guarded(lambda: sh.shex_graph(string_output=True, acceptance_threshold=thr, output_format=C.SHEXC))
     if st != "ok":
         res.update(status=st, exc=exc, frame=frame)
@@ -145,6 +147,8 @@ def c05_cases(rnd, n, prefix):
             cfg["minIri"] = True
         c = gen.case("%s%d" % (prefix, i), T, **cfg)
         c["want_shacl"] = cfg.get("disableOr", True)          # the SHACL serializer has no disjunctions (KF.C04.shacl_or)
+        if rnd.random() < .2:
+            c["repeat"] = rnd.randint(1, 2)
         if not shapemap and rnd.random() < .2 and not any(t[0] == "BNode" for s_, _p, o_ in T for t in (s_, o_)):
             # a Turtle document that declares prefixes of its own, among them labels the user (or the shapes namespace) already uses
             c["channel"] = "turtle"
@@ -179,6 +183,7 @@ def check_c05(out, tier):
     cl += [gen.chain_case(rnd, "c05k%d" % i) for i in range(40 * k)]
     cl += [gen.fan_case(rnd, "c05f%d" % i) for i in range(40 * k)]
     cl += [gen.or_fan_case(rnd, "c05o%d" % i) for i in range(20 * k)]
+    cl += [gen.asym_link_case(rnd, "c05a%d" % i) for i in range(20 * k)]
     pipeline.run_and_judge(out, cl, ["C05"], mine)
     pins = [p for p in common.load_pinned("C05") if "case" in p]
     if pins:
